@@ -236,6 +236,12 @@ func checkC17(c *Ctx) {
 	// protocols (shared with C01 / C02, as in C09 O5)
 	c.shared(checkC02, map[string]string{"O2 delivery": "O8 gauge-protocol", "O2 update-order": "O8 gauge-protocol", "O2 raise-after-store": "O8 gauge-protocol", "O4 flag-writers": "O8 gauge-protocol"})
 	c.shared(checkC01, map[string]string{"O2 delta-rmw": "O8 counter-protocol", "O3 delivery": "O8 counter-protocol"})
+	// "for every histogram the cumulative count at each bound": the core bins a histogram by the bounds it
+	// was created with, which are the bounds the vector was registered with (shared with C03 O6)
+	c.shared(checkC03, map[string]string{"O6 own-buckets": "O8 own-bounds", "O6 own-buckets-equal": "O8 own-bounds"})
+	// "same name and tag keys with different tag values are separate series": a derived scope's tags are its
+	// parent's overlaid with its own, values included (shared with C04 O3)
+	c.shared(checkC04, map[string]string{"O3 overlay-order": "O8 tags-as-derived"})
 }
 
 func (c *Ctx) checkPromAllocator(rule string, fn *ssa.Function, fOnErr *types.Var, handleMethods []string) {
